@@ -3,12 +3,9 @@ import BronVerif.Model.Hash.Sha2
 import BronVerif.Model.Hash.Blake2b
 import BronVerif.Model.Util
 /-!
-Executable, core-only model of RFC 9380 §5: `expand_message_xmd`, `expand_message_xof`, `hash_to_field`
-(extension degree 1), as implemented in `/repo/pkg/base/curves/impl/rfc9380`.
-
-TODO (not modelled): the SSWU / Elligator2 maps, isogenies and cofactor clearing.  The C19 stream checks the
-Go outputs of `HashWithDst` for curve and prime-order-subgroup membership with `Model/Curves.lean` instead of
-predicting the point.
+Executable, core-only model of RFC 9380 §5: `expand_message_xmd`, `expand_message_xof`, `hash_to_field`,
+as implemented in `/repo/pkg/base/curves/impl/rfc9380` (compared byte for byte with the Go expanders and
+`ScalarField.Hash`).  The maps to the curves, cofactor clearing and `hash_to_curve` are in `Model/H2CMap.lean`.
 -/
 namespace BronVerif.H2C
 open BronVerif BronVerif.Hash
@@ -58,5 +55,13 @@ def hashToField (expand : ByteArray → ByteArray → Nat → Option ByteArray) 
     (dst msg : ByteArray) : Option (List Nat) :=
   (expand dst msg (count * L)).map fun u =>
     (List.range count).map fun i => bytesToNatBE (u.extract (L * i) (L * i + L)) % p
+
+/-- `hash_to_field` for extension degree `m`: `count` elements of `m` components each, component `j` of
+element `i` being `OS2IP` of the `L` bytes at offset `L * (j + i * m)` reduced mod `p` -/
+def hashToFieldM (expand : ByteArray → ByteArray → Nat → Option ByteArray) (p m L count : Nat)
+    (dst msg : ByteArray) : Option (List (List Nat)) :=
+  (expand dst msg (count * m * L)).map fun u =>
+    (List.range count).map fun i => (List.range m).map fun j =>
+      bytesToNatBE (u.extract (L * (j + i * m)) (L * (j + i * m) + L)) % p
 
 end BronVerif.H2C
